@@ -235,6 +235,18 @@ var templates = []func() *tinkpb.KeyTemplate{
 	withPrefix(mac.HMACSHA256Tag128KeyTemplate, tinkpb.OutputPrefixType_CRUNCHY),
 	withPrefix(aead.AES128GCMKeyTemplate, tinkpb.OutputPrefixType_CRUNCHY),
 	withPrefix(mac.AESCMACTag128KeyTemplate, tinkpb.OutputPrefixType_LEGACY),
+	// templates only the LEGACY registry can serve (Manager.Add falls back to registry.NewKeyData)
+	kmsEnvelopeTemplate,
+	withPrefix(kmsEnvelopeTemplate, tinkpb.OutputPrefixType_CRUNCHY),
+}
+
+func kmsEnvelopeTemplate() *tinkpb.KeyTemplate {
+	kt, err := aead.CreateKMSEnvelopeAEADKeyTemplate("fake-kms://verif/c11", aead.AES128GCMKeyTemplate())
+	if err != nil {
+		vt.Fatal("kms envelope template: %v", err)
+	}
+	kt.OutputPrefixType = tinkpb.OutputPrefixType_TINK
+	return kt
 }
 
 // ---- one real call per model action -------------------------------------------------------
